@@ -4,7 +4,7 @@ Spec: {"mdg": <gen.handmdg spec>, "binary": bool, "const_sep": bool, "fresh": bo
        "keys": [{"name": str, "nd": 1|2|3, "int": bool, "sd_dims": [..], "intf_dims": [..]}, ...],
        "steps": [{"k": int|None, "seed": int, "form": "keys"|"tuples"|"tuples2d"}, ...],   # k increasing
        "mode": "vtu"|"pvd"|"mdgpvd"|"mixin-pvd"|"mixin-mdgpvd"|"mixin-vtu",
-       "times": None|[t per step], "dts": [dt per step], "pick": int, "ikeys": "list"|"none"|"str",
+       "times": None|[t per step], "t0": initial time of the mixin run, "dts": [dt per step], "pick": int, "ikeys": "list"|"none"|"str",
        "subset": [bool per file] | None, "manual": bool}
 All files are written below os.environ['VERIF_SCRATCH'] (gen.grids.scratch_file)."""
 from __future__ import annotations
@@ -38,7 +38,7 @@ RULE = (
     "equal those at the restored export, and write/load_time_information round-trips the history exactly. "
     "Non-trivial = at least one array with >=2 cells restored; distinct = hash of spec."
 )
-BUDGET = {"quick": {"cases": 1500, "seconds": 38}, "thorough": {"cases": 30000, "seconds": 1150}}
+BUDGET = {"quick": {"cases": 1000, "seconds": 38}, "thorough": {"cases": 30000, "seconds": 1150}}
 TECHNIQUE = "property-based testing (Hypothesis): export / import round trip against the written arrays"
 LEVEL_TEXT = ("Exploration: hundreds of generated md-grids per run mixing cell shapes within and across "
               "subdomains of one dimension, with interfaces, several time steps and every import entry point "
@@ -52,20 +52,23 @@ ASSUMPTIONS = [
     "file names are those the Exporter generates; the file prefix has no numeric or 'mortar' piece",
     "every key has data on all or no grids of a dimension (documented requirement of write_vtu)",
     "time-step indices increase with the export order and are < 10^6 (the zero padding of file names)",
+    "exported times increase strictly; they may start late (up to 1e8) and differ by less than 1e-6",
     "ascii vtu files keep 12 significant digits (meshio format '{:.11e}'): relative tolerance 2e-11",
     "finite values only",
 ]
 REQUIRED = {
     "mode-vtu": 0.1, "mode-pvd": 0.05, "mode-mdgpvd": 0.06, "mode-mixin-pvd": 0.02, "mode-mixin-mdgpvd": 0.02,
-    "mode-mixin-vtu": 0.02, "binary": 0.3, "ascii": 0.05, "several-sd-per-dim": 0.3, "poly-mixed": 0.06,
+    "mode-mixin-vtu": 0.02, "binary": 0.3, "ascii": 0.05, "several-sd-per-dim": 0.3, "poly-mixed": 0.25,
     "has-interface-data": 0.25, "sd-dim0": 0.1, "sd-dim1": 0.15, "sd-dim2": 0.3, "sd-dim3": 0.15,
     "kind-poly": 0.08, "kind-polyx": 0.04, "kind-tri": 0.04, "kind-tet": 0.02, "kind-cart": 0.1,
     "vector-data": 0.3, "multi-step": 0.3, "form-keys": 0.15, "form-tuples": 0.15, "form-tuples2d": 0.08,
-    "ikeys-none": 0.1, "ikeys-list": 0.2, "mixed-shapes-in-dim": 0.04,
+    "ikeys-none": 0.1, "ikeys-list": 0.2, "mixed-shapes-in-dim": 0.25, "times-large-offset": 0.02,
 }
 
 NAMES = ["p", "u", "pressure", "flux_x", "T"]
 FNAMES = ["data", "state", "run_a"]
+OFFSETS = [1.0e5, 2.5e5, 1.0e6, 1.0e7, 1.0e8]
+SMALL_DTS = [1.0, 1.0, 0.5, 0.25, 3.0, 0.05]
 MODES = ["vtu", "pvd", "mdgpvd", "mixin-pvd", "vtu", "mixin-mdgpvd", "pvd", "mixin-vtu", "mdgpvd"]
 
 
@@ -103,7 +106,7 @@ def _spec(draw, tier):
         elif pat == "random":
             ks = sorted(draw(st.lists(st.integers(0, 150), min_size=n, max_size=n, unique=True)))
         else:
-            k0 = draw(st.sampled_from([0, 0, 1, 7, 8, 9, 98, 99]))
+            k0 = draw(st.sampled_from([0, 0, 1, 7, 8, 9, 98, 99, 99999, 100000, 250000, 999990]))
             ks = list(range(k0, k0 + n))
     s["steps"] = [{"k": k, "seed": draw(st.integers(0, 2**31 - 1)),
                    "form": "tuples" if mode.startswith("mixin") and draw(st.booleans()) else draw(
@@ -111,7 +114,7 @@ def _spec(draw, tier):
     # times handed to write_pvd (plain exporter): None -> the step indices are written
     s["times"] = None
     if mode == "pvd":
-        tk = draw(st.sampled_from(["none", "none", "indexlike", "free"]))
+        tk = draw(st.sampled_from(["offset", "none", "none", "indexlike", "free", "tiny"]))
         if tk == "indexlike":  # the time of step k lies in [k, k+0.9]
             s["times"] = [float(k) + draw(st.sampled_from([0.0, 0.25, 0.5, 0.9])) for k in ks]
         elif tk == "free":
@@ -120,9 +123,26 @@ def _spec(draw, tier):
                 ts.append(t)
                 t = t + draw(_f(0.05, 6.0))
             s["times"] = ts
+        elif tk == "offset":  # late start, small increments: relative spacing down to 1e-9
+            t, ts = draw(st.sampled_from(OFFSETS)) + draw(st.sampled_from([0.0, 0.5, 0.125])), []
+            for _ in ks:
+                ts.append(t)
+                t = t + draw(st.sampled_from(SMALL_DTS))
+            s["times"] = ts
+        elif tk == "tiny":  # increments below the six decimals write_pvd keeps
+            t, ts = draw(st.sampled_from([0.0, 1.0, 12.5])), []
+            for _ in ks:
+                ts.append(t)
+                t = t + draw(st.sampled_from([1.0e-7, 4.0e-7, 2.0e-6]))
+            s["times"] = ts
     # time-step sizes of the mixin protocol (dts[0] = dt_init)
-    dk = draw(st.sampled_from(["unit", "unit", "free"]))
-    s["dts"] = [1.0 if dk == "unit" else draw(_f(0.05, 6.0)) for _ in ks]
+    dk = draw(st.sampled_from(["offset", "unit", "free", "unit", "offset"]))
+    s["t0"] = 0.0
+    if dk == "offset":
+        s["t0"] = draw(st.sampled_from(OFFSETS)) + draw(st.sampled_from([0.0, 0.5, 0.125]))
+        s["dts"] = [draw(st.sampled_from(SMALL_DTS)) for _ in ks]
+    else:
+        s["dts"] = [1.0 if dk == "unit" else draw(_f(0.05, 6.0)) for _ in ks]
     s["pick"] = draw(st.integers(0, n - 1))
     s["ikeys"] = draw(st.sampled_from(["list", "list", "none", "none", "str"]))
     s["subset"] = None
@@ -263,7 +283,7 @@ def _time_strings(spec):
 
 
 def _mixin_times(spec):
-    T, DT, t = [], [], 0.0
+    T, DT, t = [], [], float(spec.get("t0", 0.0))
     for i, dt in enumerate(spec["dts"]):
         if i > 0:
             t = t + dt
@@ -274,7 +294,9 @@ def _mixin_times(spec):
 
 def _time_manager(pp, spec):
     """Container for time / dt as a model with adaptive stepping holds it (dt is set per step by the harness)."""
-    return pp.TimeManager(schedule=[0.0, 1000.0], dt_init=spec["dts"][0], constant_dt=False, dt_min_max=(0.01, 100.0))
+    t0 = float(spec.get("t0", 0.0))
+    return pp.TimeManager(schedule=[t0, t0 + 1000.0], dt_init=spec["dts"][0], constant_dt=False,
+                          dt_min_max=(0.01, 100.0))
 
 
 # ----------------------------------------------------------------------------- known findings
@@ -312,6 +334,14 @@ def _k_time_index(spec):
     return False
 
 
+def _k_times_collide(spec):
+    """Plain pvd whose last exported time has the same six-decimal 'timestep' attribute as an earlier one."""
+    if spec["mode"] not in ("pvd", "mixin-pvd") or len(spec["steps"]) < 2:
+        return False
+    strs = _time_strings(spec)
+    return float(strs[-1]) == max(float(x) for x in strs) and any(float(x) == float(strs[-1]) for x in strs[:-1])
+
+
 def _k_str_key(spec):
     return spec["ikeys"] == "str" and len(spec["keys"][0]["name"]) > 1 and spec["mode"] in ("vtu", "pvd", "mdgpvd")
 
@@ -322,6 +352,7 @@ KNOWN = {
     "C38-import-from-pvd-lexicographic-last-timestep": _k_lexicographic,
     "C38-import-from-pvd-time-index-from-time": _k_time_index,
     "C38-import-keys-given-as-str": _k_str_key,
+    "C38-import-from-pvd-times-equal-to-six-decimals": _k_times_collide,
 }
 
 
@@ -500,8 +531,21 @@ def check(spec):
                 f"times {spec['times']}")
 
     # ---------------------------------------------------------------- time information
+    if mode in ("pvd", "mixin-pvd"):
+        tv = [float(x) for x in _time_strings(spec)]
+        if len(tv) > 1:
+            rel = min(abs(b - a) for a, b in zip(tv[:-1], tv[1:])) / max(abs(x) for x in tv + [1e-300])
+            if rel < 1e-5:
+                labels.add("times-large-offset")
+            if rel < 1e-8:
+                labels.add("times-rel-below-1e-8")
+            if max(tv) >= 1e5:
+                labels.add("times-above-1e5")
     if mode.startswith("mixin"):
         T, DT = _mixin_times(spec)
+        require(loader.exporter._time_step_counter == pick, "restored-step-counter",
+                f"mode {mode}: exporter step counter {loader.exporter._time_step_counter} after restart from export "
+                f"#{pick} (the next export must overwrite / continue at that index)")
         # history as written by the last export (exact: json keeps repr of python floats)
         fresh_tm = _time_manager(pp, spec)
         fresh_tm.load_time_information(folder / "times.json")
